@@ -638,8 +638,23 @@ type qColRef struct {
 
 func (r qColRef) col() *qCol { return &r.T.Cols[r.CI] }
 
+// qExcludedLits counts predicate literals replaced because of a grammar exclusion (read and
+// reset by the test once per case).
+var qExcludedLits = map[string]int{}
+
 // qLitFor draws a literal to compare column r with: mostly a value the column holds.
 func qLitFor(rt *rapid.T, r qColRef) string {
+	l := qLitFor0(rt, r)
+	if r.col().Kind == qkDec && (l == "99999999.99" || l == "-99999999.99") {
+		// grammar exclusion: go-mysql-server's range builder (shared by both engines) turns
+		// `deccol <> <extreme of the DECIMAL type>` into the range (NULL, ∞) and drops the filter
+		qExcludedLits["decimal_type_extreme_literal"]++
+		return "0.00"
+	}
+	return l
+}
+
+func qLitFor0(rt *rapid.T, r qColRef) string {
 	c := r.col()
 	if c.PK {
 		if n := r.T.nRows(); n > 0 && rapid.IntRange(0, 3).Draw(rt, "pklit.existing") > 0 {
@@ -1067,6 +1082,15 @@ func qGenJoin(rt *rapid.T, tables []*qTable, three bool) (qQuery, bool) {
 	}
 	if !keyed {
 		shape += " keyless_join"
+	}
+	for _, t := range used {
+		for _, ix := range t.Idx {
+			for _, pl := range ix.Prefix {
+				if pl > 0 && !strings.Contains(shape, "prefix_index_join") {
+					shape += " prefix_index_join"
+				}
+			}
+		}
 	}
 	switch rapid.IntRange(0, 5).Draw(rt, "join.shape") {
 	case 0:
